@@ -25,6 +25,19 @@ type vModelSub struct {
 	want   []vEv
 	active bool
 	late   bool // subscribed after the subject had terminated
+	self   bool // unsubscribes itself inside its first callback
+}
+
+// deliver appends an event to a subscriber's expectation, honouring self-unsubscription:
+// only the first notification reaches an observer that unsubscribes itself in its first callback.
+func (s *vModelSub) deliver(e vEv) {
+	if s.self && len(s.want) > 0 {
+		return
+	}
+	s.want = append(s.want, e)
+	if s.self {
+		s.active = false
+	}
 }
 
 type vSubjModel struct {
@@ -73,7 +86,7 @@ func (m *vSubjModel) next(v int64) {
 	if m.kind != vsAsync {
 		for _, s := range m.subs {
 			if s.active {
-				s.want = append(s.want, vN(v))
+				s.deliver(vN(v))
 			}
 		}
 	}
@@ -90,24 +103,26 @@ func (m *vSubjModel) terminate(kind int) {
 		}
 		if kind == vkComplete {
 			if m.kind == vsAsync && len(m.buf) > 0 {
-				s.want = append(s.want, vN(m.buf[0]))
+				s.deliver(vN(m.buf[0]))
 			}
-			s.want = append(s.want, vC())
+			s.deliver(vC())
 		} else {
-			s.want = append(s.want, vE(vErrA))
+			s.deliver(vE(vErrA))
 		}
 		s.active = false
 	}
 }
 
-func (m *vSubjModel) subscribe() *vModelSub {
-	s := &vModelSub{}
+func (m *vSubjModel) subscribe() *vModelSub { return m.subscribeX(false) }
+
+func (m *vSubjModel) subscribeX(self bool) *vModelSub {
+	s := &vModelSub{self: self}
 	m.subs = append(m.subs, s)
 	term := func() {
 		if m.status == vkComplete {
-			s.want = append(s.want, vC())
+			s.deliver(vC())
 		} else {
-			s.want = append(s.want, vE(vErrA))
+			s.deliver(vE(vErrA))
 		}
 	}
 	if m.status != 0 {
@@ -115,35 +130,36 @@ func (m *vSubjModel) subscribe() *vModelSub {
 		switch m.kind {
 		case vsReplay, vsUnicast:
 			for _, v := range m.buf {
-				s.want = append(s.want, vN(v))
+				s.deliver(vN(v))
 			}
 			if m.kind == vsUnicast {
 				m.buf = nil
 			}
 		case vsAsync:
 			if m.status == vkComplete && len(m.buf) > 0 {
-				s.want = append(s.want, vN(m.buf[0]))
+				s.deliver(vN(m.buf[0]))
 			}
 		}
 		term()
 		return s
 	}
+	s.active = true
 	switch m.kind {
 	case vsBehavior, vsReplay:
 		for _, v := range m.buf {
-			s.want = append(s.want, vN(v))
+			s.deliver(vN(v))
 		}
 	case vsUnicast:
-		if m.activeCount() > 0 {
+		if m.activeCount() > 1 {
+			s.active = false
 			s.want = append(s.want, vEv{kind: vkError, err: ErrUnicastSubjectConcurrent})
 			return s
 		}
 		for _, v := range m.buf {
-			s.want = append(s.want, vN(v))
+			s.deliver(vN(v))
 		}
 		m.buf = nil
 	}
-	s.active = true
 	return s
 }
 
@@ -195,7 +211,7 @@ func vC10Seq(kind int, K int) {
 	var recs []*vRecorder
 	var subs []Subscription
 	for step := 0; step < K; step++ {
-		switch vChoice("op"+vItoa(step), 5) {
+		switch vChoice("op"+vItoa(step), 6) {
 		case 0:
 			v := vInt64("v" + vItoa(step))
 			subj.NextWithContext(context.Background(), v)
@@ -214,6 +230,23 @@ func vC10Seq(kind int, K int) {
 			recs = append(recs, rec)
 			subs = append(subs, subj.SubscribeWithContext(context.Background(), vObs(rec, vFlatInt)))
 			m.subscribe()
+		case 5:
+			// an observer (itself a Subscriber) that unsubscribes in its first callback — possibly
+			// while the subject is still replaying its backlog to it inside Subscribe
+			if len(recs) >= 3 || kind == vsUnicast {
+				vAssume(false)
+			}
+			rec := &vRecorder{name: "s" + vItoa(len(recs))}
+			recs = append(recs, rec)
+			var self Subscriber[int64]
+			rec.hook = func(r *vRecorder, k int, idx int) {
+				if idx == 0 {
+					self.Unsubscribe()
+				}
+			}
+			self = NewSubscriber(vObs(rec, vFlatInt))
+			subs = append(subs, subj.SubscribeWithContext(context.Background(), self))
+			m.subscribeX(true)
 		default:
 			if len(subs) == 0 {
 				vAssume(false)
